@@ -297,7 +297,8 @@ def run(tier):
     run = runner.Run(PID, tier, 'exploration',
                      'exhaustive: every pdf_fields() mapping of every form x instance x year checked against the field '
                      'tree, accessibility text, export values and limits parsed from the bundled PDF (XFA template packet '
-                     'and AcroForm tree); check-box groups x every value of the driving line; distinct = (year, form, '
+                     'and AcroForm tree); check-box groups x every value of the driving line; plus every box of every base return '
+                     'filled through the real fill_pdfs() compared with the line mapped to it; distinct = (year, form, '
                      'template field)')
     run.exhaustive = True
     paths = set()
@@ -326,12 +327,33 @@ def run(tier):
             run.count(f'templates.{k}')
         run.count('templates.with_xfa' if sc['xfa'] is not None else 'templates.acroform_only')
     run.count('errata_table_entries', len(ERRATA))
+    # dynamic leg: what a real fill puts into each box.  Every base return of every year is solved, written, filled through
+    # the real fill_pdfs() with the stand-in pdftk, and each decoded box must hold the text of the line mapped to it
+    # (blank for a mapped optional line the return did not compute).
+    from hv import e3
+    from hv.props import c19
+    items = [(y, b.name, {}) for y in sorted(habutax.forms.available_forms) for b in e3.bases_for(y)]
+    boxes = fills = 0
+    for (y, bname, _), (errs, oc, nf) in zip(items, runner.pmap(c19._fill_work, items)):
+        boxes += nf
+        fills += 1 if nf else 0
+        for kind, m in errs:
+            if kind in ('fdf-content', 'template', 'fdf-unparseable'):
+                run.violation(f'C18|fill|{y}|{kind}|{m[:60]}', dict(engine='fill', year=y, base=bname), f'{y} {bname}: {m}')
+    run.count('fill.returns_filled', fills)
+    run.count('fill.boxes_compared', boxes)
+    run.evaluations += boxes
     run.assumptions.append('pdftk addresses fields by the AcroForm fully-qualified name; on IRS templates the XFA SOM names '
                            'and the AcroForm names were verified identical by pdfread.self_check')
     return run.finish()
 
 
 def replay(case):
+    if case.get('engine') == 'fill':
+        from hv.props import c19
+        errs, oc, nf = c19._fill_work((case['year'], case['base'], {}))
+        errs = [m for k, m in errs if k in ('fdf-content', 'template', 'fdf-unparseable')]
+        return (not errs), (errs[0] if errs else f'{nf} boxes hold the mapped text')
     C = catalogue(case['year']).get(case['form'])
     if C is None:
         return False, f'form {case["form"]} is no longer in the {case["year"]} catalogue'
